@@ -1,6 +1,6 @@
 """C06 — length-prefixed data fields carry arbitrary bytes."""
 from ..facts import Program, AnalysisBroken, WITNESS_FIELDS
-from .. import q
+from .. import q, extent
 
 CLAIM = {
     'text': 'Structural preconditions for binary-safe data fields: the fixed-width extraction step (Length field followed by its data field) '
@@ -17,7 +17,8 @@ EXPLANATION = (
     "Decided: R06.1 the pairing predicate in MessageBase::decode is `type == ft_Length` then next tag must be ft_data — flagged if it also "
     "requires `lasttag + 1 == tag`; R06.2 decode_group contains the same Length→data step (a call of extract_element_fixed_width); R06.3 "
     "the field factory is called with a `const char*` only (no length) and Field<f8String,N>(const char*) builds its value from the "
-    "C string; Field<f8String,N>::print copies size() bytes. NOT decided: byte contents.")
+    "C string; Field<f8String,N>::print copies size() bytes; R06.4 the decoder's bound on the data length equals the value buffer's capacity (not less), and the fixed-width "
+    "extractor refuses the copy exactly when value (and separator) do not fit. NOT decided: byte contents.")
 
 MB = 'FIX8::MessageBase::'
 
@@ -83,3 +84,39 @@ def run(ctx):
     cp = [x for x in pr[0].calls() if x.callee is not None and x.callee.get('n') == 'copy']
     ctx.check(len(cp) == 1 and any(y.is_call and y.callee is not None and y.callee.get('n') == 'size' for y in cp[0].args[1].walk()), 'R06.3',
               'FIX8::Field<f8String>::print#length-based', pr[0].loc, 'string data is rendered by length (copy(to, size())), not as a C string')
+
+    # ---------------- R06.4 "any length up to the field limit": the two guards of the Length->data step are exact, not merely safe
+    fwf = prog.fn1(MB + 'extract_element_fixed_width')
+    ctx.saw(fwf)
+    if fw:
+        summ = extent.summarise(fwf, 4)
+        ok, need, cap, why = extent.check_site(d, fw[0], summ, 4)
+        ctx.check(ok and need == cap, 'R06.4', MB + 'decode#length-guard-exact', fw[0].loc,
+                  'the greatest data length the decoder lets through is exactly what the value buffer holds (%s bytes incl. terminator): %s' % (cap, why),
+                  ('the guard on the data length lets through at most %s byte(s) incl. terminator but the buffer holds %s: a data field of exactly the field limit '
+                   '(%s bytes) is rejected' % (need, cap, (cap - 1) if cap else '?')) if ok else ('data length not bounded by the buffer: %s' % why))
+    cp = [c for c in fwf.calls() if c.callee_qp in ('memcpy', 'std::memcpy', '__builtin_memcpy')]
+    ctx.need(len(cp) == 1, 'extract_element_fixed_width: memcpy not found')
+    psz, pn = fwf.param_ids[1], fwf.param_ids[2]
+    sym = lambda x: 'SZ' if q.refers_to_decl(x, psz) else 'N' if q.refers_to_decl(x, pn) else x.text()
+    thr = None
+    for (a, pol) in q.controlling_atoms(fwf, cp[0]):
+        t = a.strip(casts=True)
+        if t.k != 'BinaryOperator' or t.op not in ('<', '<=', '>', '>=') or not any(q.refers_to_decl(x, psz) for x in t.walk() if x.k == 'DeclRefExpr') \
+                or not any(q.refers_to_decl(x, pn) for x in t.walk() if x.k == 'DeclRefExpr'):
+            continue
+        op = t.op if not pol else {'<': '>=', '<=': '>', '>': '<=', '>=': '<'}[t.op]       # the REJECTING condition
+        dl = q.linear(t.children[0], sym=sym) - q.linear(t.children[1], sym=sym)
+        if op in ('>', '>='):
+            dl, op = -dl, {'>': '<', '>=': '<='}[op]
+        # now: dl (op) 0 with op in < / <=   ->   dl <= T0
+        t0 = -1 if op == '<' else 0
+        terms = dict(dl.t)
+        if terms.get('SZ') == 1 and terms.get('N') == -1 and len(terms) == 3 and sorted(terms.values()) == [-1, -1, 1]:
+            thr = t0 - dl.c
+            site = t
+    ctx.need(thr is not None, 'extract_element_fixed_width: room test `sz < index + length` before the copy not recognised')
+    ctx.check(thr in (-1, 0), 'R06.4', MB + 'extract_element_fixed_width#room-test-exact', site.loc,
+              'the copy is refused exactly when the value (or the value and its separator) does not fit the remaining input (remaining - length <= %d)' % thr,
+              'the room test `%s` refuses the copy while remaining - length <= %d: a data field %s is rejected although its bytes are there'
+              % (site.text(), thr, 'that ends the decoded region (always the case for a Length/data pair in the trailer)' if thr > 0 else 'may be read past the input'))
